@@ -150,7 +150,8 @@ func (i *inspect) addIndexes(t *schema.Table, rows *sql.Rows) error {
 			},
 		}
 		if partial {
-			m := reIdxWhere.FindStringSubmatch(stmt.String)
+			// Comments are not part of the predicate.
+			m := reIdxWhere.FindStringSubmatch(removeComments(stmt.String))
 			if m == nil {
 				return fmt.Errorf("missing partial WHERE clause in: %s", stmt.String)
 			}
@@ -213,7 +214,12 @@ func (i *inspect) indexInfo(ctx context.Context, t *schema.Table, idx *schema.In
 		return nil
 	}
 	var c CreateStmt
-	if !sqlx.Has(idx.Attrs, &c) || !reIdxParts.MatchString(c.S) {
+	if !sqlx.Has(idx.Attrs, &c) {
+		return nil
+	}
+	// Comments are not part of the expressions.
+	c.S = removeComments(c.S)
+	if !reIdxParts.MatchString(c.S) {
 		return nil
 	}
 	x := reIdxParts.FindStringSubmatch(c.S)[1]
